@@ -611,6 +611,14 @@ func (x *g) shadow() {
 			x.f("reassign-use-then-shadow")
 			x.line("t(%s, %s)", x.tag(), name)
 		}
+		if x.chance(0.3, "self-shadow") {
+			// the legacy idiom `len = len`: the right-hand side still denotes the universal
+			x.f("reassign-self-shadow")
+			x.line("%s = %s", name, name)
+			x.line("t(%s, %s)", x.tag(), name)
+			x.declare(name, kind(99), nil)
+			return
+		}
 	} else if x.risky("use-before-shadow") {
 		x.f("risky-use-before-assignment")
 		x.line("t(%s, %s)", x.tag(), name)
